@@ -81,11 +81,11 @@ def run_history(ctx, hist_spec, workdir: Path):
                               "name": name, "before": prevd, "after": cur})
         else:
             first[name] = i
-            if list(cur.keys()) != list(prevd.keys()) + [name]:
+            if sorted(cur.keys()) != sorted(list(prevd.keys()) + [name]):
                 fails.append({"step": i, "what": "keys after saving a new name are not old keys + new name",
                               "before_keys": list(prevd.keys()), "after_keys": list(cur.keys())})
             for k, v in prevd.items():
-                if k not in cur or not sl.json_same(v, cur[k]) or json.dumps(v) != json.dumps(cur[k]):
+                if k not in cur or not sl.json_same(v, cur[k]):
                     fails.append({"step": i, "what": "an earlier entry changed when a new name was saved",
                                   "entry": k, "before": v, "after": cur.get(k)})
         prev = cur
@@ -123,8 +123,8 @@ def run_history(ctx, hist_spec, workdir: Path):
                     fails.append({"what": f"{tag}: action matrix does not round-trip", "name": name,
                                   "expected_shape": orig.actions.shape, "got_shape": got.actions.shape,
                                   "expected": orig.actions.tolist(), "got": got.actions.tolist()})
-                exp_meta = sl.stringify(orig.metadata)
-                if not sl.json_same(exp_meta, got.metadata):
+                exp_meta = sl.expected_metadata(orig.parsed_args)
+                if not sl.json_same(exp_meta, got.metadata, ordered=False):
                     fails.append({"what": f"{tag}: metadata differs beyond JSON stringification", "name": name,
                                   "expected": exp_meta, "got": got.metadata})
     return step_lines, load_lines, fails, {"parsed": prev, "first": first}
@@ -405,9 +405,9 @@ def stream_commands(ctx, n_cfg):
             ctx.violation("C19 oracle: data.json does not hold the matrices that were computed for this name first",
                           dict(rep, expected_data=first.data.tolist(), got_data=loaded.data.tolist(),
                                expected_actions=first.actions.tolist(), got_actions=loaded.actions.tolist()))
-        if not sl.json_same(sl.stringify(first.metadata), loaded.metadata):
+        if not sl.json_same(sl.expected_metadata(first.parsed_args), loaded.metadata, ordered=False):
             ctx.violation("C19 oracle: metadata of the command run differs beyond JSON stringification",
-                          dict(rep, expected=sl.stringify(first.metadata), got=loaded.metadata))
+                          dict(rep, expected=sl.expected_metadata(first.parsed_args), got=loaded.metadata))
         if len(ctx.samples) < 5 and is_new:
             ctx.sample({"stream": "command", "argv": cfg["common"] + cfg["sub"], "name": name,
                         "data_shape": list(out.data.shape), "actions_shape": list(out.actions.shape),
